@@ -77,5 +77,41 @@ def struct_variant_members(lang, obs, enum_names, variant_ident, variant_wire=No
     for en in enum_names:
         d = find_def(obs, f"{en}{variant_ident}Inner")
         if d:
-            return d.get("members")
+            return instantiate(d, helper_reference(obs, enum_names, d["name"]))
     return None
+
+
+def helper_reference(obs, enum_names, helper_name):
+    """the type written where the enum refers to its derived helper type (with its generic ARGUMENTS), or None"""
+    e = find_def(obs, *enum_names)
+    for v in (e or {}).get("variants", []):
+        t = v.get("ty")
+        if isinstance(t, dict) and t.get("k") == "user" and t.get("n") == helper_name:
+            return t
+    return None
+
+
+def subst(ty, m):
+    if not isinstance(ty, dict):
+        return ty
+    if ty.get("k") == "user" and not ty.get("args") and ty.get("n") in m:
+        return m[ty["n"]]
+    out = dict(ty)
+    for k in ("e", "key", "val"):
+        if k in out:
+            out[k] = subst(out[k], m)
+    if "args" in out:
+        out["args"] = [subst(a, m) for a in out["args"]]
+    return out
+
+
+def instantiate(d, ref):
+    """members of a generic definition as seen through a reference `Name<args>`: the declared parameters are replaced by the
+    arguments of the reference, position by position (no reference, or no arguments: the members as declared)"""
+    ms = d.get("members")
+    gens = d.get("generics") or []
+    args = (ref or {}).get("args") or []
+    if ms is None or not gens or len(gens) != len(args):
+        return ms
+    m = dict(zip(gens, args))
+    return [dict(x, ty=subst(x["ty"], m)) for x in ms]
